@@ -233,7 +233,8 @@ def obligations(tier, seed):
     blocks = []
     for be in parlib.BACKENDS:
         blocks.append((be, "list", 3, 1))
-    blocks += [("threading", "generator", 3, 1), ("loky", "generator", 2, 1), ("stub_cb", "generator", 3, 1),
+    blocks += [("threading", "list", "0.4*n_jobs", 1), ("loky", "generator", 0, 1),     # expressions that evaluate to 0
+               ("threading", "generator", 3, 1), ("loky", "generator", 2, 1), ("stub_cb", "generator", 3, 1),
                ("threading", "list", "all", 1), ("loky", "list", "2*n_jobs", 2), ("stub_legacy", "list", "all", 2),
                ("threading", "generator_unordered", 3, 1), ("loky", "generator_unordered", 2, 1)]
     if tier == "thorough":
